@@ -408,6 +408,32 @@ def _drive(c):
             return core.guarded(f)
 
 
+def _classify(c, out):
+    """class of a failing case: witnesses from the corpus keep their own name (so that each repaired defect is
+    reported with its own replay); otherwise the two as-found single-member-bin rules are recognised on the output
+    (Coq-side superset: Spec.has_single_weighted)"""
+    fam = c.get("family", "")
+    if fam.startswith("corpus:"):
+        return fam
+    if c["w"] is None or out[0] != "ok" or not out[1]["rows"]:
+        return None
+    o = out[1]
+    rev, rows = o["rev"], o["rows"]
+    wh = 8 if c["y"] is not None else 4
+    cls = None
+    for i, h in enumerate(o["hist"]):
+        if h != 1:
+            continue
+        k = rev[rev[i]]
+        wk = _f(c["w"][k])
+        row = [float.fromhex(t) for t in rows[i]]
+        if row[wh] != wk:
+            return "C14.kf_single_member_whist"
+        if abs(row[wh + 3] - 1 / math.sqrt(wk)) > 1e-9 / math.sqrt(wk) or row[wh + 4] != 0:
+            cls = "C14.kf_single_member_werr"
+    return cls
+
+
 def _cedges(es):
     return "[" + "; ".join("(%s, %s, %s)" % tuple(cfloat(float.fromhex(v)) for v in e) for e in es) + "]"
 
@@ -420,7 +446,7 @@ class Binned(Entry):
         cs = []
         if round == 0:
             cs += _adversarial_binned(ctx.rng)
-        cs += _random(ctx, ctx.n(700, 6000), ctx.n(120, 300), False)
+        cs += _random(ctx, ctx.n(480, 4000), ctx.n(120, 300), False)
         ctx.rng.shuffle(cs)
         return cs
 
@@ -457,9 +483,7 @@ class Binned(Entry):
                                "y" if c["y"] is not None else "-", "w" if c["w"] is not None else "-")
 
     def classify(self, c, out, v):
-        if c["w"] is not None and out[0] == "ok" and 1 in out[1]["hist"]:
-            return "C14.has_single_weighted"
-        return None
+        return _classify(c, out)
 
 
 class NPerBin(Entry):
@@ -473,7 +497,7 @@ class NPerBin(Entry):
         cs = []
         if round == 0:
             cs += _adversarial_num(ctx.rng)
-        cs += _random(ctx, ctx.n(500, 4000), ctx.n(120, 300), True)
+        cs += _random(ctx, ctx.n(320, 2500), ctx.n(120, 300), True)
         ctx.rng.shuffle(cs)
         return cs
 
@@ -510,9 +534,7 @@ class NPerBin(Entry):
                                        "w" if c["w"] is not None else "-", "merge" if c["mergelast"] else "nomerge")
 
     def classify(self, c, out, v):
-        if c["w"] is not None and out[0] == "ok" and 1 in out[1]["hist"]:
-            return "C14.has_single_weighted"
-        return None
+        return _classify(c, out)
 
 
 ENTRIES = [Binned(), NPerBin()]
